@@ -433,3 +433,79 @@ def _(tier, rng):
             for lazy in (1, 2):
                 for thin in (True, False):
                     if path.count('/') - 1 >= lazy: yield dict(items=n, path=path, lazy=lazy, thin=thin)
+
+
+# ------------------------------------------------------------------ DefusableReader.seek: the logical position and the position of the wrapped stream stay consistent (C13)
+t = Target('streams.DefusableReader.seek', ['C13'], 'xmlschema/utils/streams.py', 'DefusableReader.seek',
+           note='the reader keeps the first B bytes of a non-seekable stream in a buffer and reads the rest from the stream; its representation invariant is '
+                'position(stream) = max(position(reader), B). seek(pos) with whence 0 or 1 on an open reader re-establishes it for the new position: a rewind from beyond the buffer '
+                'moves the stream back to B (which fails with OSError on a stream that cannot seek - never silently), a seek beyond the buffer moves the stream there, a seek within '
+                'the buffer from within the buffer leaves the stream alone. Then what is parsed after the defusing pass is the byte sequence that was checked',
+           assumes=['the wrapped stream is a ghost position; stream.seek(x) sets it to x or raises OSError (uninterpreted choice); the lock is a no-op'])
+
+
+@t.symbolic
+def _(run):
+    ex = run.exec(); st = new_state()
+    pos, whence, cur, B, fp0 = (z3.Int(n) for n in ('pos', 'whence', 'reader_position', 'buffer_size', 'stream_position'))
+    can_seek = z3.Bool('stream_can_seek')
+    st.objf['fp'] = {}; st.objf['lock'] = {}
+    st.objf['self'] = {'closed': VBool(z3.BoolVal(False)), '_fp': VObj('fp'), '_fp_lock': VObj('lock'), '_pos': VInt(cur), '_buffer_size': VInt(B)}
+    st.env.update(self=VObj('self'), pos=VInt(pos), whence=VInt(whence)); st.ghost.update(fp=fp0, fp_seeks=0)
+    ex.callees['isinstance'] = lambda e, s, r, a, k: VBool(z3.BoolVal(True))
+    ex.names['int'] = OPAQUE
+
+    def seek(e, s, r, a, k):
+        if not (isinstance(r, VObj) and r.name == 'fp' and len(a) == 1): raise Unsupported('stream.seek with whence')
+        e.pending_raise.append((z3.Not(can_seek), VExc(OSError)))
+        s.ghost['fp'] = lift(a[0]).t; s.ghost['fp_seeks'] += 1
+        return VInt(lift(a[0]).t)
+    ex.callees['seek'] = seek
+    ex.callees['max'] = lambda e, s, r, a, k: VInt(z3.If(lift(a[0]).t >= lift(a[1]).t, lift(a[0]).t, lift(a[1]).t))
+    mx = lambda x, y: z3.If(x >= y, x, y)
+    pre = z3.And(z3.Or(whence == 0, whence == 1), z3.Implies(whence == 0, pos >= 0), cur >= 0, B >= 0, fp0 == mx(cur, B))
+    run.inputs.update(pos=pos, whence=whence, reader_position=cur, buffer_size=B, stream_can_seek=can_seek)
+    outs = ex.run(st, pre)
+    new = z3.If(whence == 0, pos, mx(0, cur + pos))
+
+    def post(kind, v, s):
+        if kind == 'raise':     # only the stream's own refusal (a stream that can seek never makes the reader fail)
+            return z3.And(z3.BoolVal(isinstance(v, VExc) and v.cls is OSError), z3.Not(can_seek))
+        if kind != 'return': return z3.BoolVal(False)
+        return z3.And(lift(v).t == new, s.objf['self']['_pos'].t == new, s.ghost['fp'] == mx(new, B), z3.Implies(mx(new, B) == fp0, z3.BoolVal(s.ghost['fp_seeks'] == 0) if s.ghost['fp_seeks'] == 0 else s.ghost['fp'] == fp0))
+    run.post(ex, outs, pre, {'stream-position-follows-the-reader-position': post})
+
+
+@t.concrete
+def _(inp):
+    import io
+    from xmlschema.utils.streams import DefusableReader
+
+    class NonSeek(io.BufferedIOBase):
+        def __init__(self, data): self._b = io.BytesIO(data)
+        def read(self, n=-1): return self._b.read(n)
+        def readable(self): return True
+        def seekable(self): return False
+        def seek(self, *a): raise OSError('not seekable')
+    data = bytes((i * 7 + i // 256) % 251 for i in range(40000)); B = inp['buffer_size']
+    raw = io.BytesIO(data) if inp['stream_can_seek'] else NonSeek(data)
+    try: r = DefusableReader(io.BufferedReader(raw) if inp['stream_can_seek'] else raw, B)
+    except Exception as e: return dict(ok=True, observed=f'not built: {type(e).__name__}', required='n/a')
+    # the real buffer is never smaller than io.DEFAULT_BUFFER_SIZE: positions keep their offset from the end of the buffer
+    Be = r._buffer_size; mp = lambda x: x + (Be - B) if x > B else x
+    cur = mp(inp['reader_position']); new = mp(inp['pos'] if inp['whence'] == 0 else max(0, inp['reader_position'] + inp['pos']))
+    r.read(cur)
+    try: r.seek(new if inp['whence'] == 0 else new - cur, inp['whence']); refused = False
+    except OSError: refused = True
+    if refused:
+        ok = not inp['stream_can_seek']; return dict(ok=ok, observed='OSError', required='refusal only from a stream that cannot seek')
+    new = r.tell(); n = max(8, Be - new + 8); got = r.read(n); want = data[new:new + n]       # (read across the end of the buffer)
+    return dict(ok=got == want, observed=f'after seek the reader at {new} reads ...{got[-8:]!r}', required=f'...{want[-8:]!r}: the bytes of the stream from that position on')
+
+
+@t.scope
+def _(tier, rng):
+    for B in (16, 64):
+        for cur in (0, 8, B, B + 10, B + 100):
+            for pos, whence in ((0, 0), (4, 0), (B, 0), (B + 5, 0), (B + 200, 0), (-4, 1), (4, 1), (-(B + 50), 1)):
+                for can in (True, False): yield dict(pos=pos, whence=whence, reader_position=cur, buffer_size=B, stream_can_seek=can)
